@@ -52,7 +52,7 @@ class RunGroup:
         crates = self.plan()
         self.dropped = {}
         t0 = time.time()
-        for rnd in range(4):
+        for rnd in range(8):
             live = []
             for name, ns, cs in crates:
                 cs = [c for c in cs if c.id not in self.dropped]
@@ -64,7 +64,7 @@ class RunGroup:
             emit.emit_harness(self.root, [n for n, _, _ in live])
             os.makedirs(os.path.join(self.root, "hooklog"), exist_ok=True)
             rc, msgs, err, secs = build.run_cargo(
-                self.root, ["build", "--offline", "-p", "harness"],
+                self.root, ["build", "--offline", "--keep-going", "-p", "harness"],
                 env={"ENUM_TOOLS_VERIF_LOG": os.path.join(self.root, "hooklog")}, timeout=5400)
             build.collect_hooklog(self.root)
             if rc == 0:
